@@ -130,6 +130,11 @@ class Project:
                     tree = ast.parse(src, filename=path)
                 except (SyntaxError, OSError, UnicodeDecodeError) as e:
                     raise AnalysisError(f"cannot parse {rel}: {e}")
+                if rel.replace(os.sep, "/").endswith("utils/_selection.py"):
+                    # normal form of the selection primitives: a private module-level helper whose value is assigned
+                    # (`a, b = _helper(x, y)`) is beta-reduced into its caller, so that a selection loop extracted
+                    # into a helper is analysed as the loop it is
+                    _inline_assigned_helper_calls(tree)
                 m = ModuleInfo(name, path, rel, tree, src, is_pkg)
                 self.modules[name] = m
                 self._index_module(m)
@@ -436,3 +441,74 @@ if __name__ == "__main__":
     for c in ("ValueOfInformationEER", "BatchBALD", "SklearnNormalRegressor"):
         ci = p.get_class(c)
         print(c, [getattr(k, "name", k) for k in p.mro(ci)], p.ctor_params(ci))
+
+
+def _inline_assigned_helper_calls(module):
+    import copy as _copy
+    helpers = {f.name: f for f in module.body if isinstance(f, ast.FunctionDef) and f.name.startswith("_")}
+
+    def inlinable(h):
+        body = [b for i, b in enumerate(h.body) if not (i == 0 and isinstance(b, ast.Expr) and isinstance(b.value, ast.Constant))]
+        if not body or not isinstance(body[-1], ast.Return) or body[-1].value is None:
+            return None
+        for b in body[:-1]:
+            for x in ast.walk(b):
+                if isinstance(x, (ast.Return, ast.Yield, ast.YieldFrom, ast.FunctionDef, ast.Lambda, ast.Global, ast.Nonlocal)):
+                    return None
+        if h.args.vararg or h.args.kwarg or h.decorator_list:
+            return None
+        return body
+
+    def rewrite(stmts, owner_name):
+        out = []
+        for st in stmts:
+            for fld in ("body", "orelse", "finalbody"):
+                blk = getattr(st, fld, None)
+                if isinstance(blk, list) and blk and isinstance(blk[0], ast.stmt):
+                    setattr(st, fld, rewrite(blk, owner_name))
+            if isinstance(st, ast.Assign) and isinstance(st.value, ast.Call) and isinstance(st.value.func, ast.Name) \
+                    and st.value.func.id in helpers and st.value.func.id != owner_name:
+                h = helpers[st.value.func.id]
+                body = inlinable(h)
+                call = st.value
+                params = [a.arg for a in h.args.posonlyargs + h.args.args]
+                ok = body is not None and len(call.args) <= len(params) and not any(isinstance(a, ast.Starred) for a in call.args) \
+                    and all(k.arg in params for k in call.keywords)
+                if ok:
+                    bind = dict(zip(params, call.args))
+                    for k in call.keywords:
+                        bind[k.arg] = k.value
+                    defaults = h.args.defaults
+                    for prm, d in zip(params[len(params) - len(defaults):], defaults):
+                        bind.setdefault(prm, d)
+                    stored = {x.id for b in body for x in ast.walk(b) if isinstance(x, ast.Name) and isinstance(x.ctx, ast.Store)}
+                    if set(params) - set(bind) or any(not isinstance(bind[q], ast.Name) for q in params if q in stored) \
+                            or any(not isinstance(v, (ast.Name, ast.Constant, ast.Attribute)) for v in bind.values()):
+                        ok = False
+                if ok:
+                    class Sub(ast.NodeTransformer):
+                        def visit_Name(self, n):
+                            if n.id in bind:
+                                r = _copy.deepcopy(bind[n.id])
+                                if isinstance(r, ast.Name):
+                                    r.ctx = n.ctx
+                                return ast.copy_location(r, n)
+                            return n
+                    new_body = [Sub().visit(_copy.deepcopy(b)) for b in body]
+                    for b in new_body[:-1]:
+                        for x in ast.walk(b):
+                            if hasattr(x, "lineno"):
+                                x.lineno = st.lineno
+                                x.end_lineno = st.lineno
+                        out.append(b)
+                    fin = ast.Assign(targets=st.targets, value=new_body[-1].value)
+                    ast.copy_location(fin, st)
+                    ast.fix_missing_locations(fin)
+                    out.append(fin)
+                    continue
+            out.append(st)
+        return out
+
+    for f in module.body:
+        if isinstance(f, ast.FunctionDef):
+            f.body = rewrite(f.body, f.name)
